@@ -22,7 +22,7 @@ def run(replay=None):
     thorough = tier() == 'thorough'
     rnd = rng('c08')
     rec = Recorder(rep, rnd, 64 if thorough else 32)
-    texts = family_texts(FAMILIES_THOROUGH if thorough else FAMILIES_QUICK, rep, rnd, cap=None if thorough else 2500)
+    texts = family_texts(list(FAMILIES_THOROUGH if thorough else FAMILIES_QUICK) + [('rand', 8000, 5) if thorough else ('rand', 1500, 4)], rep, rnd, cap=None if thorough else 2500)
     for fam, text, entry, obj in parse_inputs(texts, ('expression', 'condition')):
         if entry == 'condition' and rnd.random() > 0.3:
             continue
